@@ -150,3 +150,43 @@ Proof.
   unfold store_setcol. destruct (k_setcol_by_reference so own false si) eqn:E; [|reflexivity].
   apply setcol_by_reference_only in E. destruct E as (_ & _ & E & _). discriminate E.
 Qed.
+
+(* ---- a scalar written to n addressed cells, n = 0 included ---- *)
+From DM Require Import Spec.Table.
+
+(* the L1 scalar write refines the L0 right-hand side (Spec/Table.rhs_cells) for every number of addressed cells:
+   the same exception, or n copies of Python-equal values *)
+Theorem scalar_n_refines (k : kind) (n : nat) (v : pyv) : pyv_wf v = true ->
+  match store_scalar_n k n v, rhs_cells k n (RScalar v) with
+  | Ok xs, Ok ys => exists x y, xs = repeat x n /\ ys = repeat y n /\ val_eqv x y = true
+  | Raise e1, Raise e2 => e1 = e2
+  | _, _ => False
+  end.
+Proof.
+  intros Hwf. pose proof (toseq_scalar_nf k v Hwf) as H. unfold store_scalar_n, rhs_cells.
+  destruct (toseq_scalar k v) as [x|e1], (nf k v) as [y|e2]; cbn [bind res_eqv] in *; try discriminate H.
+  - exists x, y. auto.
+  - destruct e1, e2; try discriminate H; reflexivity.
+Qed.
+
+(* the accept / reject verdict of a scalar write does not depend on how many cells are addressed *)
+Theorem scalar_verdict_any_n (k : kind) (n m : nat) (v : pyv) :
+  match store_scalar_n k n v, store_scalar_n k m v with
+  | Ok _, Ok _ => True
+  | Raise e1, Raise e2 => e1 = e2
+  | _, _ => False
+  end.
+Proof. unfold store_scalar_n. destruct (toseq_scalar k v); cbn [bind]; auto. Qed.
+
+(* a write that addresses no cell: nothing is stored, and it raises exactly when the normal form raises *)
+Theorem scalar_zero_cells (k : kind) (v : pyv) : pyv_wf v = true ->
+  match store_scalar_n k 0 v, nf k v with
+  | Ok xs, Ok _ => xs = []
+  | Raise e1, Raise e2 => e1 = e2
+  | _, _ => False
+  end.
+Proof.
+  intros Hwf. pose proof (toseq_scalar_nf k v Hwf) as H. unfold store_scalar_n.
+  destruct (toseq_scalar k v) as [x|e1], (nf k v) as [y|e2]; cbn [bind res_eqv repeat] in *; try discriminate H; auto.
+  destruct e1, e2; try discriminate H; reflexivity.
+Qed.
